@@ -103,7 +103,10 @@ func genCustomPair(r *rng) (int64, int64) {
 var gridTypes = []string{"default", "lines", "snapToChars", "snapToLines", "linesAndChars"}
 
 func genPageOp(r *rng) pageOp {
-	switch r.pick([]int{10, 12, 16, 14, 14, 8, 6, 8, 4, 8}) {
+	switch r.pick([]int{10, 12, 16, 14, 14, 8, 6, 8, 4, 8, 9}) {
+	case 10:
+		// a call that names no page setting (it may create or look up the section settings all the same)
+		return pageOp{Kind: "Other", Name: []string{"AddHeader", "AddFooter", "FirstPage", "FooterPageNumber", "AddParagraph", "AddTable", "AddHeaderEven"}[r.intn(7)]}
 	case 0:
 		s := &pageSettingsJ{}
 		s.Size = append(predefNames, "Custom", "Custom", "Custom", "B5")[r.intn(9)]
@@ -172,6 +175,23 @@ func applyPageOp(doc *document.Document, op pageOp) (*document.Document, bool, e
 		err = doc.SetDocGrid(document.DocGridType(op.T), int(op.A[0]), int(op.A[1]))
 	case "ClearGrid":
 		err = doc.ClearDocGrid()
+	case "Other":
+		switch op.Name {
+		case "AddHeader":
+			err = doc.AddHeader(document.HeaderFooterTypeDefault, "header")
+		case "AddHeaderEven":
+			err = doc.AddHeader(document.HeaderFooterTypeEven, "even header")
+		case "AddFooter":
+			err = doc.AddFooter(document.HeaderFooterTypeFirst, "footer")
+		case "FirstPage":
+			doc.SetDifferentFirstPage(true)
+		case "FooterPageNumber":
+			err = doc.AddFooterWithPageNumber(document.HeaderFooterTypeDefault, "page", true)
+		case "AddParagraph":
+			doc.AddParagraph("text")
+		default:
+			_, err = doc.AddTable(&document.TableConfig{Rows: 1, Cols: 2, Width: 4000})
+		}
 	case "Reopen":
 		data, e := doc.ToBytes()
 		if e != nil {
@@ -286,6 +306,8 @@ func (op pageOp) coq() string {
 		return fmt.Sprintf("(SetGrid %s %s %s)", cStr(op.T), cZ(op.A[0]), cZ(op.A[1]))
 	case "ClearGrid":
 		return "ClearGrid"
+	case "Other":
+		return "Other"
 	default:
 		return "Reopen"
 	}
@@ -493,7 +515,9 @@ func runPageCase(ops []pageOp) (obs []pageObs, fail *OracleFailure, nOK int) {
 	doc := document.New()
 	e := defaultExpect()
 	oracleOn := true
-	prev := observePage(doc, true)
+	// (observed on another new document: reading the settings may itself create the section settings, and the first
+	// call of the history must find the document as New returns it)
+	prev := observePage(document.New(), true)
 	for i, op := range ops {
 		nd, ok, err := applyPageOp(doc, op)
 		doc = nd
@@ -507,6 +531,12 @@ func runPageCase(ops []pageOp) (obs []pageObs, fail *OracleFailure, nOK int) {
 		}
 		if oracleOn && fail == nil {
 			switch cl := classifyPageOp(op); {
+			case op.Kind == "Other":
+				if !ok {
+					fail = &OracleFailure{Clause: "other_call", Detail: fmt.Sprintf("op %d %s failed", i, op.Name)}
+				} else if !obsEqual(prev, o) {
+					fail = &OracleFailure{Clause: "other_calls_frame", Detail: fmt.Sprintf("op %d %s (names no page setting) changed the settings: before %+v after %+v", i, op.Name, prev, o)}
+				}
 			case op.Kind == "Reopen":
 				if !obsEqual(prev, o) {
 					fail = &OracleFailure{Clause: "reopen_same", Detail: fmt.Sprintf("op %d: settings differ after save+open: before %+v after %+v", i, prev, o)}
@@ -555,7 +585,7 @@ func runC12(cfg *runCfg) error {
 	r := newRng(cfg.seed)
 	dist := newDistinct()
 	var coqCases []string
-	res.Rule = "histories of 1-14 page-setting calls (SetPageSettings/SetPageSize/SetCustomPageSize/SetPageOrientation/SetPageMargins/SetHeaderFooterDistance/SetGutterWidth/SetDocGrid/ClearDocGrid/save+open) from one splitmix64 stream; non-trivial = at least 2 accepted state-changing calls; distinct by hash of the op list"
+	res.Rule = "histories of 1-14 page-setting calls (SetPageSettings/SetPageSize/SetCustomPageSize/SetPageOrientation/SetPageMargins/SetHeaderFooterDistance/SetGutterWidth/SetDocGrid/ClearDocGrid/save+open, and calls that name no page setting: AddHeader/AddFooter/SetDifferentFirstPage/AddFooterWithPageNumber/AddParagraph/AddTable) from one splitmix64 stream; non-trivial = at least 2 accepted state-changing calls; distinct by hash of the op list"
 	// fixed corpus first (past findings), then generated
 	corpus := [][]pageOp{
 		{{Kind: "SetCustom", A: []int64{100000, 200000}}, {Kind: "SetOrient", Name: "landscape"}, {Kind: "SetMargins", A: []int64{10000, 10000, 10000, 10000}}, {Kind: "SetGutter", A: []int64{5000}}},
